@@ -90,13 +90,52 @@ CHECKS = {
         "sync.Mutex/channel semantics; fairness assumed for 'eventually seen'.",
    technique="Lean 4 proofs (channel protocol; generic lock-order and guard theorems) + regenerated static facts decided in the kernel + forced schedules and -race stress",
    ref="DESIGN.md section 5 C13, Appendix C"),
- "C12": dict(engine="codecs+down+fuzzmisc+api (+sig when integrated)",
+"C11": dict(engine="sig",
+   text="Lean 4 theorems over an executable model of rtpconn/webclient.go's message handler (handleClientMessage, handleAction, the join/leave path, token requests) "
+        "for every connection state, environment and message: C11_guard (every effect that acts on the group, another member, a token or the media plane is emitted only "
+        "when the sender is a member holding the permission the handler names), C11_publish_guard, C11_token_delegation / C11_token_reach_* (a minted or edited token "
+        "never carries more than its issuer holds, and only tokens of the issuer's own group are reached), C11_nonmember_refused (a connection that is in no group gets "
+        "nothing but errors), revocation on an aliasing heap model of Go slices (C11_revocation_*: a revoked permission is gone from the member and from nobody else); "
+        "the pre-fix behaviours (ghost member after a redirect join, edittoken across groups, permission list shared with the stored token) are kept as proved "
+        "counterexamples about the pre-fix definitions; the model is tied to the real handler by a differential run of generated multi-client sessions against the real "
+        "webClient objects in-process, with an independent trace oracle that recomputes every member's permissions from the group description",
+   note=TB + "The websocket transport, JSON decoding and pion are replaced by in-process message injection (shim); group descriptions are generated from a fixed family; the "
+        "guard theorem is about the model's handlers, tied by the differential run rather than by a regenerated guard table; the world-level statement that a non-member "
+        "holds no permission in every reachable world is checked by the oracle on every step, not proved in general.",
+   technique="Lean 4 proof + model/implementation differential check + independent trace oracle",
+   ref="DESIGN.md section 5 C11"),
+ "C14": dict(engine="sig",
+   text="Lean 4: C14_converges_partial, by induction over every list of join/leave/change/deliver steps of an abstract membership machine in which announcements are "
+        "queued in the order the state changes (the synchronous discipline): at quiescence the fold of each member's delivered events equals the group's membership and "
+        "attributes; C14_no_cross_group on the concrete world model (a user event is only ever pushed to members of the group it is about); proved counterexamples "
+        "C14_converges_false_overtake (two change announcements released from detached goroutines can overtake each other: known finding P17) and "
+        "C14_converges_false_ghost (the pre-fix redirect join).  The real code is tied by the differential run and by an oracle that, at every quiescent point of a "
+        "generated session, compares each real client's accumulated user list with the real group's membership",
+   note=TB + "The convergence theorem is about the abstract Membership model and is `_partial`: it assumes announcements are enqueued in state-change order, which the code "
+        "guarantees for join/leave (under the group lock) but not for permission/data changes (known finding P17). Delivery is modelled as a FIFO per member (unbounded "
+        "channel, C13).",
+   technique="Lean 4 proof + model/implementation differential check + independent trace oracle",
+   ref="DESIGN.md section 5 C14"),
+ "C15": dict(engine="sig+group",
+   text="Lean 4 theorems over the same handler model: C15_spoof_rejected / C15_authentic (every chat or user message the handler forwards carries the sender's own id "
+        "and authenticated username, for every message), C15_addressing / C15_broadcast_recipients (a direct message reaches exactly the named member of the sender's "
+        "group, a broadcast exactly the members of that group, minus the sender when noecho), C15_history_bound / C15_history_last (the history never exceeds "
+        "maxChatHistory and always keeps the newest entries, for every append sequence), C15_replay_suffix, C15_history_age_partial (with server-assigned monotone "
+        "time stamps nothing older than the limit is replayed; without monotonicity a proved counterexample is kept), C15_history_clear; the real handler, "
+        "AddToChatHistory/GetChatHistory and the join replay are driven by generated sessions (spoofed ids, foreign destinations, >50 messages, clearchat) and an "
+        "oracle checks authenticity, addressing and the bound on the real outputs; the copy-on-read of the history is exercised by `histsnap` in the group engine",
+   note=TB + "Time is abstract (ages); the monotonicity hypothesis of the age theorem is the server clock. Transport replaced by in-process injection.",
+   technique="Lean 4 proof + model/implementation differential check + independent trace oracle",
+   ref="DESIGN.md section 5 C15"),
+ "C12": dict(engine="codecs+down+fuzzmisc+api+sig",
    text="Media part proved in Lean 4: the transcriptions of PacketFlags, RewritePacket, Keyframe (VP8, VP9, AV1 OBU walk, H.264 single/STAP/MTAP/FU), "
         "KeyframeDimensions and of pion's RTP/VP8/VP9 parsers never evaluate an out-of-range index and never change a packet's length, for every byte list and codec "
         "string; HTTP part: C12_api_no_crash for the model of the admin API (every request gets a response; the pre-fix nil dereference is kept as a proved "
-        "counterexample about the pre-fix definition); the real functions/handlers are run under recover() on type-directed and malformed inputs on every check and "
+        "counterexample about the pre-fix definition); signalling part: C12_run_no_crash for the model of the websocket message handler and action loop (every message "
+        "and every queued action of every reachable world yields effects, never a crash; the pre-fix crashes P10/P12/P18/offer-without-group are kept as proved counterexamples "
+        "about the pre-fix definitions); the real functions/handlers are run under recover() on type-directed and malformed inputs on every check and "
         "any panic is reported with the input",
-   note=TB + "Signalling and HTTP parts are covered by the sig/api engines where integrated; JSON decoding, websocket framing, pion's SDP/RTCP parsers are exercised only "
+   note=TB + "JSON decoding, websocket framing, pion's SDP/RTCP parsers are exercised only "
         "by the harness (exploration, not proof).",
    technique="Lean 4 totality proofs (no panic, length preserved) + differential/fuzz run under recover()",
    ref="DESIGN.md section 5 C12"),
